@@ -4,6 +4,7 @@ import (
 	"bytes"
 	"fmt"
 	"math/big"
+	"strings"
 	"sync"
 	"testing"
 
@@ -289,10 +290,15 @@ func gen(t *rapid.T) Case {
 		rapid.StringN(1, 24, 200),
 		rapid.StringMatching(`[a-zA-Z0-9 !@#]{1,16}`),
 		rapid.SampledFrom([]string{"a", "pässwörd", "пароль", "密码", "é", "\x00", "a\x00b", " ", "🙂🙃", "é"}),
+		// pass phrases: lengths around and beyond any buffer an implementation might join the hashed parts in
+		rapid.Custom(func(t *rapid.T) string {
+			n := rapid.SampledFrom([]int{55, 56, 63, 64, 65, 119, 120, 255, 256, 257, 511, 512, 944, 945, 1023, 1024, 1025, 4096, 70000}).Draw(t, "pwlen")
+			return strings.Repeat(rapid.StringMatching(`[a-z ]{7}`).Draw(t, "pwunit"), n/7+1)[:n]
+		}),
 	).Draw(t, "password")
 	c.Other = mutatePassword(t, c.Password)
-	c.Salt1 = hx.Bytes(t, "salt1", 64, 0, 8, 32)
-	c.Salt2 = hx.Bytes(t, "salt2", 64, 0, 16)
+	c.Salt1 = hx.Bytes(t, "salt1", 64, 0, 8, 32, 40, 64, 128, 509, 510, 600, 2048)
+	c.Salt2 = hx.Bytes(t, "salt2", 64, 0, 16, 32, 64, 479, 480, 500, 2048)
 	c.G = rapid.SampledFrom([]int64{3, 4, 7}).Draw(t, "g")
 	c.BSecret = hx.FixedBytes(t, "b", 256)
 	c.BSecret[0] |= 1
@@ -330,6 +336,9 @@ func record(c Case) {
 		cls = append(cls, "badB:"+c.BadB)
 	default:
 		cls = append(cls, fmt.Sprintf("corner:%s%d", c.Corner, c.Zeros), fmt.Sprintf("g=%d", c.G))
+		if 2*len(c.Salt1)+len(c.Password) > 1024 || 2*len(c.Salt2) > 900 {
+			cls = append(cls, "long-hash-input")
+		}
 		if c.Public {
 			cls = append(cls, "public-api")
 		}
